@@ -86,3 +86,12 @@ Definition same_full (t : rtable) (expected : N) : bool := N.eqb (pack (table_no
 (* the specification on the same universe *)
 Definition sp (t : rtable) (u p : nat) (x : target) : bool :=
   spec_b attr_ent2 attr_rev2 (fun _ => false) obj_ent2 (rules_of t) (groups_of u) (roles_of u) labels_of p x.
+
+(* cross-session histories of the correspondence run: providers answer (g0, role table r0) until the change and (g1, r1) after it;
+   the change happens at moment 1 *)
+Definition groups_seq (g0 g1 : list nat) (t : nat) : list nat := if t <? 1 then g0 else g1.
+Definition roles_seq (r0 r1 : bool) (t o : nat) : list nat := if (if t <? 1 then r0 else r1) then [1] else [].
+Definition history_now (t : rtable) (g0 g1 : list nat) (r0 r1 : bool) (h : list hitem) : list bool :=
+  history rev_loop_iterates_reverse_rules obj_exclusion_tests_entity missing_reverse_rules_returns_false
+          attr_ent2 attr_rev2 (fun _ => false) obj_ent2 (rules_of t) (groups_seq g0 g1) (roles_seq r0 r1) (fun _ o => labels_of o)
+          provider_caches_cleared_on_commit provider_caches_cleared_on_rollback (mkcaches None [] []) h.
